@@ -116,7 +116,9 @@ func (s ints) Operation() (interface{}, error)  { return []int(s), nil }
 func (s ints) Slice(i, j int) concurrent.Mapper { return s[i:j] }
 func (s ints) Len() int                         { return len(s) }
 
-func mapper(size, threads, maxChunk int) func() vrt.Run { return mapDriver(size, threads, maxChunk, false) }
+func mapper(size, threads, maxChunk int) func() vrt.Run {
+	return mapDriver(size, threads, maxChunk, false)
+}
 
 // mapDriver: Map called directly, or through PromiseMap and one Wait on its promise.
 func mapDriver(size, threads, maxChunk int, viaPromise bool) func() vrt.Run {
@@ -266,7 +268,10 @@ func drivers(quick bool) []conc.Driver {
 	if !quick {
 		budget = 10 * time.Minute
 	}
-	cfg := vrt.Config{PreemptBound: -1, Budget: budget}
+	// Symmetry: the workers NewProcessor starts are interchangeable (the instrumenter shows that their
+	// closure captures nothing that differs between iterations); states that differ by a permutation of
+	// them are visited once
+	cfg := vrt.Config{PreemptBound: -1, Budget: budget, Symmetry: true}
 	var ds []conc.Driver
 	add := func(name string, mk func() vrt.Run) {
 		ds = append(ds, conc.Driver{Name: name, Cfg: cfg, Mk: mk, Fallback: []int{0, 1, 2, 3, 4, 5, 6}})
